@@ -12,6 +12,7 @@ import (
 	"encoding/hex"
 	"math/rand"
 	"sort"
+	"sync"
 	"testing"
 
 	"github.com/obolnetwork/charon/tbls"
@@ -31,10 +32,38 @@ func TestExec(t *testing.T) {
 	scheds := drv.ReadSchedules(t)
 	tr := drv.NewTracer(t)
 	defer tr.Close()
-	for i, s := range scheds {
-		runOne(t, tr, i, s)
+	// cases are independent: run them on a few workers, write the traces in schedule order
+	out := make([]*buf, len(scheds))
+	var wg sync.WaitGroup
+	next := make(chan int)
+	for range 8 {
+		wg.Add(1)
+		go func() {
+			defer wg.Done()
+			for i := range next {
+				out[i] = &buf{}
+				runOne(t, out[i], i, scheds[i])
+			}
+		}()
+	}
+	for i := range scheds {
+		next <- i
+	}
+	close(next)
+	wg.Wait()
+	for _, b := range out {
+		for _, ev := range b.evs {
+			tr.Emit(ev)
+		}
 	}
 }
+
+// sink receives the events of one case.
+type sink interface{ Emit(drv.Step) }
+
+type buf struct{ evs []drv.Step }
+
+func (b *buf) Emit(ev drv.Step) { b.evs = append(b.evs, ev) }
 
 type state struct {
 	n, t     int
@@ -128,7 +157,7 @@ func msgOf(v any, alt bool) []byte {
 	return b
 }
 
-func runOne(t *testing.T, tr *drv.Tracer, sid int, sched []drv.Step) {
+func runOne(t *testing.T, tr sink, sid int, sched []drv.Step) {
 	st := &state{}
 	tr.Emit(drv.Step{"ev": "Reset", "sid": sid})
 	for _, step := range sched {
@@ -145,7 +174,7 @@ func runOne(t *testing.T, tr *drv.Tracer, sid int, sched []drv.Step) {
 	}
 }
 
-func doSplit(t *testing.T, tr *drv.Tracer, st *state, step drv.Step) {
+func doSplit(t *testing.T, tr sink, st *state, step drv.Step) {
 	st.n, st.t = drv.Num(step["n"]), drv.Num(step["t"])
 	st.secret = secretOf(t, step["secret"])
 	var (
@@ -171,7 +200,7 @@ func doSplit(t *testing.T, tr *drv.Tracer, st *state, step drv.Step) {
 		"secret": step["secret"], "mode": step["mode"]})
 }
 
-func doRecover(tr *drv.Tracer, st *state, step drv.Step) {
+func doRecover(tr sink, st *state, step drv.Step) {
 	S := ints(step["S"])
 	failed := false
 	keys := map[int]tbls.PrivateKey{}
@@ -223,7 +252,7 @@ func doRecover(tr *drv.Tracer, st *state, step drv.Step) {
 	tr.Emit(drv.Step{"ev": "Recover", "S": S, "err": failed, "secretEq": secretEq, "pubEq": pubEq})
 }
 
-func doCombine(tr *drv.Tracer, st *state, step drv.Step) {
+func doCombine(tr sink, st *state, step drv.Step) {
 	S := ints(step["S"])
 	sub, _ := step["sub"].(map[string]any)
 	kind, pos, arg := drv.Str(sub["kind"]), drv.Num(sub["pos"]), drv.Num(sub["arg"])
